@@ -526,6 +526,17 @@ def gen_C09(tier, seed):
         for t in range(9):
             c, nn = parts_of(v)
             out.append(f"to_greg {c} {nn} {t}")
+    # the text forms: Display (own scale), to_gregorian_str / {:?} {:x} {:X} (UTC, TAI, TT), RFC 3339
+    for n in day_iter(1, 9999, 1511 if tier != "thorough" else 97):
+        for tod in (0, NPD - 1, 12 * 3600 * SEC + 500 * 10**6):
+            for t in INT_SCALES:
+                e = parts_of(n * NPD + tod - REF_NS.get(t, 0)) + (t,)
+                out.append(f"disp_epoch {p3(e)}")
+                out.append(f"greg_str {p3(e)} {g.r.choice([0, 1, 4, 5])}")
+                out.append(f"rfc3339 {p3(e)}")
+    for y in (-30000, -1, 0, 10000, 30000):
+        e = parts_of(days_from_civil(y, 3, 1) * NPD + 1) + (0,)
+        out.append(f"disp_epoch {p3(e)}")
     n = budget(tier, 30000, 1500000)
     for _ in range(n):
         r = g.r
@@ -708,3 +719,127 @@ def gen_C17(tier, seed):
 
 
 GENERATORS["C17"] = gen_C17
+
+
+# ------------------------------------------------------------------------------ text
+def enc(s):
+    return "[" + ",".join(str(ord(c)) for c in s) + "]"
+
+
+DOC_FORMATS = ["%Y-%m-%dT%H:%M:%S.%f %T", "%Y-%m-%dT%H:%M:%S.%f? %T?", "%Y-%m-%dT%H:%M:%S.%f%z", "%Y-%m-%dT%H:%M:%S.%f?%z",
+               "%Y-%m-%d", "%Y-%j", "%a, %d %b %Y %H:%M:%S", "%A, %d %B %Y %H:%M:%S", "%Y-%m-%dT%H:%M:%S.%f"]
+SUPPORTED = "YmdHMSfjAaBbTz"
+SEPS = "-:/ T,._;|#"
+
+
+def rand_format(r, ntok=None, full=False):
+    n = ntok or r.randint(1, 16)
+    toks = [r.choice(SUPPORTED) for _ in range(n)]
+    if full:
+        base = list("YmdHMSf")
+        r.shuffle(base)
+        toks = base + [r.choice("jAaBbT") for _ in range(r.randint(0, 3))]
+    out = ""
+    for i, t in enumerate(toks):
+        out += "%" + t
+        if i < len(toks) - 1:
+            k = r.choice([0, 1, 1, 1, 2]) if not full else r.choice([1, 1, 2])
+            out += "".join(r.choice(SEPS) for _ in range(k))
+    return out
+
+
+def epoch_pool_calendar(g, n):
+    out = []
+    for _ in range(n):
+        day = g.r.randint(days_from_civil(1, 1, 1), days_from_civil(9999, 12, 31))
+        tod = g.r.choice([0, 1, NPD - 1, g.r.randint(0, NPD - 1), g.r.randint(0, 86399) * SEC, 12 * 3600 * SEC + 500 * 10**6])
+        t = g.r.choice(INT_SCALES)
+        out.append(parts_of(day * NPD + tod - REF_NS.get(t, 0)) + (t,))
+    return out
+
+
+def gen_C19(tier, seed):
+    g = EGen(seed)
+    r = g.r
+    out = corpus("C19")
+    for k in range(9):
+        out.append(f"fmt_const {k}")
+    for f in DOC_FORMATS:
+        out.append(f"fmt_debug {enc(f)}")
+    fixed = [(1, 536457599999999999, 4), (1, 536457600000000000, 0), (0, 0, 0), (-1, NPC - 1, 4), (0, 2524953619000000000, 5), (1, 2, 7),
+             parts_of(days_from_civil(2000, 2, 29) * NPD + 53849 * SEC + 37) + (4,), parts_of(days_from_civil(1999, 12, 31) * NPD + NPD - 1) + (0,),
+             parts_of(days_from_civil(2023, 4, 27) * NPD + 46526 * SEC) + (4,), parts_of(days_from_civil(1, 1, 1) * NPD) + (4,),
+             parts_of(days_from_civil(9999, 12, 31) * NPD + NPD - 1) + (4,)]
+    offsets = [(0, 0), (0, 5 * 3600 * SEC), (-1, NPC - 5 * 3600 * SEC), (0, 23 * 3600 * SEC + 59 * 60 * SEC), (-1, NPC - (23 * 3600 + 59 * 60) * SEC),
+               (0, 90 * 60 * SEC), (0, 36 * 3600 * SEC + 15 * 60 * SEC), (0, 3600 * SEC + 30 * SEC)]
+    for e in fixed:
+        for k in range(9):
+            out.append(f"fmt_render_const {p3(e)} 0 0 0 {k}")
+            for o in offsets[:5]:
+                out.append(f"fmt_render_const {p3(e)} {p2(o)} 1 {k}")
+        for f in DOC_FORMATS + ["%j, %T", "%A %j", "%a", "%T", "%z", "%j", "%w", "%y", "%H:%M", "%Y%m%d", "%d/%m/%Y %H:%M:%S", "%B %d, %Y", "%b-%d",
+                                "%Y-%m-%dT%H:%M:%S %T %A %a %B %b %j %z %f %Y %m %d"]:
+            out.append(f"fmt_render {p3(e)} 0 0 0 {enc(f)}")
+    for f in ["", "%", "%%", "%Q", "abc", "%Y-", "%Y--", "%Y---%m", "%A, ", "%A,?", "%y,?", "%p", "%Y?", "%?", "%Y?-", "%é", "%Yé%m", "x%Y",
+              "%Y" * 16, "%Y" * 17, "%Y-" * 16, "%Y-%m" * 9, "%f?" * 16, "%J", "%Y %J"]:
+        out.append(f"fmt_debug {enc(f)}")
+    n = budget(tier, 15000, 500000)
+    pool = epoch_pool_calendar(g, 300)
+    for _ in range(n):
+        # keep the year within 2.9 million years of 1900: beyond that the model of from_gregorian(year, 1, 1) (used by %j)
+        # takes its slow loop path
+        e = r.choice(pool) if r.random() < 0.8 else parts_of(max(-9 * 10**22, min(9 * 10**22, g.rand_epoch_val()))) + (r.choice(INT_SCALES),)
+        f = rand_format(r)
+        k = r.random()
+        if k < 0.1:
+            out.append(f"fmt_debug {enc(f)}")
+        elif k < 0.8:
+            out.append(f"fmt_render {p3(e)} 0 0 0 {enc(f)}")
+        elif k < 0.9:
+            o = r.choice(offsets + [parts_of(r.choice([-1, 1]) * (r.randint(0, 23) * 3600 + r.randint(0, 59) * 60) * SEC)])
+            out.append(f"fmt_render {p3(e)} {p2(o)} 1 {enc(f)}")
+        else:
+            o = r.choice(offsets)
+            out.append(f"fmt_render_const {p3(e)} {p2(o)} {r.randint(0, 1)} {r.randint(0, 8)}")
+    return out
+
+
+def gen_C11(tier, seed):
+    g = EGen(seed)
+    r = g.r
+    out = corpus("C11")
+    for d in g.parts_pool():
+        out.append(f"decompose {p2(d)}")
+        out.append(f"disp_dur {p2(d)}")
+        out.append(f"signum {p2(d)}")
+        for u in range(9):
+            out.append(f"subdivision {p2(d)} {u}")
+    # values within a few ns of a whole number of each unit, both signs, up to 10 000 years and beyond
+    for u in range(7):
+        f = UNIT_FACTORS[u]
+        for k in (1, 2, 23, 24, 59, 60, 999, 1000, 36524, 36525, 3000000, 3652425, 10**7 + 1):
+            for dl in (-3, -1, 0, 1, 3):
+                for sg in (1, -1):
+                    v = sg * (k * f + dl)
+                    if abs(v) < MAXV:
+                        d = parts_of(v)
+                        out.append(f"decompose {p2(d)}")
+                        out.append(f"disp_dur {p2(d)}")
+    n = budget(tier, 40000, 2000000)
+    for _ in range(n):
+        k = r.random()
+        if k < 0.5:
+            u = r.randint(0, 6)
+            v = r.choice([-1, 1]) * (int(10 ** r.uniform(0, 9)) * UNIT_FACTORS[u] + r.randint(-3, 3))
+            v = max(MINV, min(MAXV - 1, v))
+        elif k < 0.9:
+            v = r.randint(-3 * 10**20, 3 * 10**20)
+        else:
+            v = r.randint(MINV, MAXV - 1)
+        d = parts_of(v)
+        out.append(f"{r.choice(['decompose', 'disp_dur', 'disp_dur'])} {p2(d)}")
+    return out
+
+
+GENERATORS["C19"] = gen_C19
+GENERATORS["C11"] = gen_C11
